@@ -42,29 +42,47 @@ def main():
                 res['apply'] = 'FAILED: ' + out[-300:]
             else:
                 res['apply'] = 'ok'
-                rcd, outd = sh('/venv/bin/python %s' % os.path.join(d, 'demo.py'), wt, env=dict(os.environ, OMP_NUM_THREADS='2'))
-                res['demo_rc'] = rcd
-                t0 = time.time()
-                rcc, outc = sh('./check %s --tier %s' % (prop, tier), VERIF, env=dict(os.environ, TTMC_REPO=wt))
-                res['check_rc'] = rcc
-                res['classes'] = re.findall(r'class=(\S+) cases=(\d+)', outc)[:10]
-                res['wall_s'] = round(time.time() - t0, 1)
-                res['harness'] = [l for l in outc.splitlines() if l.startswith('HARNESS')][:2]
+                # the demos locate the library relative to their own file; here they live in /verif/seeded, so the scratch
+                # worktree is put on PYTHONPATH (C17 demos additionally need a built extension and are not run here)
+                if prop != 'C17':
+                    rcd, outd = sh('/venv/bin/python %s' % os.path.join(d, 'demo.py'), wt, env=dict(os.environ, OMP_NUM_THREADS='2', PYTHONPATH=wt))
+                    res['demo_rc'] = rcd
+                if '--no-check' in sys.argv:
+                    old = meta.get('at_head', {})
+                    for kk in ('check_rc', 'classes', 'wall_s', 'harness'):
+                        if kk in old:
+                            res[kk] = old[kk]
+                else:
+                    t0 = time.time()
+                    rcc, outc = sh('./check %s --tier %s' % (prop, tier), VERIF, env=dict(os.environ, TTMC_REPO=wt))
+                    res['check_rc'] = rcc
+                    res['classes'] = re.findall(r'class=(\S+) cases=(\d+)', outc)[:10]
+                    res['wall_s'] = round(time.time() - t0, 1)
+                    res['harness'] = [l for l in outc.splitlines() if l.startswith('HARNESS')][:2]
         finally:
             sh('git worktree remove --force %s' % wt, REPO)
             shutil.rmtree(wt, ignore_errors=True)
         meta['at_head'] = res
         json.dump(meta, open(os.path.join(d, 'meta.json'), 'w'), indent=1)
         det = 'DETECTED' if res.get('check_rc') == 1 else ('HARNESS-ERROR' if res.get('check_rc') == 2 else ('missed' if res.get('apply') == 'ok' else 'n/a'))
-        rows.append((sid, prop, res.get('apply', '?')[:6], res.get('demo_rc'), det, '; '.join('%s(%s)' % c for c in res.get('classes', [])[:3]), (meta.get('breaks') or '')[:110].replace('\n', ' ')))
+        rows.append((sid, prop, res.get('apply', '?')[:6], res.get('demo_rc'), det, '; '.join('%s(%s)' % tuple(c) for c in res.get('classes', [])[:3]), (meta.get('breaks') or '')[:110].replace('\n', ' ')))
         print(rows[-1][:6], flush=True)
     # evidence files were rewritten by the runs against the scratch copies: restore them from git
     sh('git checkout -- evidence', VERIF)
+    # the table always lists EVERY seeded change, from the result stored in its meta.json (this run's or an earlier one's)
+    allrows = []
+    for sid in sorted(d for d in os.listdir(sd) if os.path.isdir(os.path.join(sd, d))):
+        meta = json.load(open(os.path.join(sd, sid, 'meta.json')))
+        res = meta.get('at_head', {})
+        det = 'DETECTED' if res.get('check_rc') == 1 else ('HARNESS-ERROR' if res.get('check_rc') == 2 else ('missed' if res.get('apply') == 'ok' and 'check_rc' in res else 'n/a'))
+        allrows.append((sid, meta['property'], res.get('head', '?'), res.get('apply', '?')[:6], res.get('demo_rc', 'not run'), det,
+                        '; '.join('%s(%s)' % tuple(c) for c in res.get('classes', [])[:3]), (meta.get('breaks') or '')[:110].replace('\n', ' ').replace('|', '/')))
     with open(os.path.join(sd, 'RESULTS.md'), 'w') as f:
-        f.write('# Seeded changes vs. checks (repo HEAD %s, tier %s, %s)\n\n' % (head, tier, time.strftime('%Y-%m-%d %H:%M')))
-        f.write('| id | property | patch applies | demo rc with patch | check | violation classes (cases) | what the change breaks |\n|---|---|---|---|---|---|---|\n')
-        for r in rows:
-            f.write('| %s | %s | %s | %s | %s | %s | %s |\n' % r)
+        f.write('# Seeded changes vs. checks (quick tier; each patch applied to a fresh scratch worktree of /repo at the commit in column 3)\n\n')
+        f.write('%d changes, %d detected by the property\'s own quick check.\n\n' % (len(allrows), sum(1 for r in allrows if r[5] == 'DETECTED')))
+        f.write('| id | property | repo commit | patch applies | demo rc with patch (0 = demo passes) | check | violation classes (cases) | what the change breaks |\n|---|---|---|---|---|---|---|---|\n')
+        for r in allrows:
+            f.write('| %s | %s | %s | %s | %s | %s | %s | %s |\n' % r)
     print('detected %d / %d' % (sum(1 for r in rows if r[4] == 'DETECTED'), len(rows)))
 
 
